@@ -354,6 +354,15 @@ class PythonTemplater(RawTemplater):
                         "variables? https://docs.sqlfluff.com/en/stable/"
                         "perma/variables.html".format(err)
                     )
+            except (AttributeError, IndexError, TypeError, ValueError) as err:
+                # A field which the context cannot satisfy (`{a[5]}`, `{a.b}` on
+                # a plain value) or a bad conversion / format spec (`{a!x}`,
+                # `{a:zz}`): report it rather than crash.
+                raise SQLTemplaterError(
+                    "Failure in Python templating: {}. Have you configured your "
+                    "variables? https://docs.sqlfluff.com/en/stable/"
+                    "perma/variables.html".format(err)
+                )
             return rendered_str
 
         raw_sliced, sliced_file, new_str = self.slice_file(
